@@ -45,7 +45,8 @@ VARIABLES toks,       \* the token string so far
                       \* "S" SUM( , "I1" "I2" "I3" IF( with that many arguments begun
           out         \* <<>> while the formula is incomplete, else what the
                       \* reference semantics says about it: <<tree, spans of
-                      \* sub-expressions, value under each environment>>
+                      \* sub-expressions, value under each environment,
+                      \* end of parse, magnitude scale under each environment>>
                       \* (a function of toks, kept in the state to be computed once)
 vars == <<toks, stk, out>>
 
@@ -209,7 +210,7 @@ UnparseArgs(a, p) == IF p > Len(a) THEN <<>>
                    ELSE (IF p > 1 THEN <<",">> ELSE <<>>) \o Unparse(a[p]) \o UnparseArgs(a, p + 1)
 
 --------------------------------------------------------------------------
-(* the evaluator.  Ev returns <<value, exact>>.                            *)
+(* the evaluator.  Ev returns <<value, exact, scale>>.                     *)
 (*                                                                         *)
 (* exact = FALSE marks a number that a binary floating-point evaluation    *)
 (* (Excel's as much as pycel's) need not reproduce exactly: some number    *)
@@ -217,10 +218,16 @@ UnparseArgs(a, p) == IF p > Len(a) THEN <<>>
 (* number is still compared with a tolerance by the harness, but what      *)
 (* depends on it discontinuously (a comparison, a rendering by &, a test   *)
 (* for zero, integrality of an exponent) is left open: U.                  *)
+(* scale = an integer bound on the magnitude of every number met on the    *)
+(* way: the tolerance is relative to it, because 2%%+100-100 carries the   *)
+(* rounding error of 100, not of 0.0002 (cancellation).                    *)
 
 RECURSIVE IsPow2(_)
 IsPow2(d) == IF d = 1 THEN TRUE ELSE IF d % 2 = 1 THEN FALSE ELSE IsPow2(d \div 2)
 Dyadic(v) == IF IsNumV(v) THEN IsPow2(v[3]) ELSE TRUE
+
+Max2(a, b) == IF a >= b THEN a ELSE b
+Mag(v) == IF IsNumV(v) THEN (Abs(v[2]) + v[3] - 1) \div v[3] ELSE 0      \* ceil |v|
 
 \* SUM of scalar arguments.  How SUM treats text and logicals depends on
 \* whether they are typed in or referenced (C14); here only numbers and
@@ -233,14 +240,17 @@ SumFrom(vals, p, acc) ==
        ELSE IF ~IsNumV(v) THEN U("any")
        ELSE LET s == NAdd(acc, v) IN IF IsU(s) THEN s ELSE SumFrom(vals, p + 1, s)
 
+RECURSIVE MaxScale(_, _)
+MaxScale(vals, p) == IF p > Len(vals) THEN 0 ELSE Max2(vals[p][3], MaxScale(vals, p + 1))
+
 RECURSIVE Ev(_, _)
 Ev(x, env) ==
   CASE x[1] = "lit" ->
-         LET v == IF x[2] \in Refs THEN env[x[2]] ELSE Lit[x[2]] IN <<v, Dyadic(v)>>
+         LET v == IF x[2] \in Refs THEN env[x[2]] ELSE Lit[x[2]] IN <<v, Dyadic(v), Mag(v)>>
     [] x[1] = "un" ->
          LET a == Ev(x[3], env)
              v == Apply1(x[2], a[1])
-         IN  <<v, a[2] /\ Dyadic(v)>>
+         IN  <<v, a[2] /\ Dyadic(v), Max2(a[3], Mag(v))>>
     [] x[1] = "bin" ->
          LET a == Ev(x[3], env)
              b == Ev(x[4], env)
@@ -251,22 +261,23 @@ Ev(x, env) ==
                         \/ op = "/" /\ ~b[2] /\ ToNum(b[1]) = Zero
                         \/ op = "^" /\ IsNumV(ToNum(a[1])) /\ ToNum(a[1])[2] <= 0
              v == IF open THEN U("any") ELSE Apply(op, a[1], b[1])
-         IN  <<v, a[2] /\ b[2] /\ Dyadic(v)>>
+         IN  <<v, a[2] /\ b[2] /\ Dyadic(v), Max2(Max2(a[3], b[3]), Mag(v))>>
     [] x[1] = "call" /\ x[2] = "SUM(" ->
          LET vals == [q \in 1..Len(x[3]) |-> Ev(x[3][q], env)]
              v == SumFrom([q \in 1..Len(vals) |-> vals[q][1]], 1, Zero)
-         IN  <<v, (\A q \in 1..Len(vals) : vals[q][2]) /\ Dyadic(v)>>
+         IN  <<v, (\A q \in 1..Len(vals) : vals[q][2]) /\ Dyadic(v),
+               Max2(MaxScale(vals, 1), Mag(v))>>
     [] x[1] = "call" /\ x[2] = "IF(" ->
          \* IF(condition, then, else): only the chosen branch counts.
          \* Left open: a text or inexact condition, the two-argument form,
          \* a blank reference coming out of a branch.
          LET c == Ev(x[3][1], env)
              cv == c[1]
-         IN  IF IsErr(cv) THEN <<cv, TRUE>>
-             ELSE IF IsU(cv) \/ IsText(cv) \/ ~c[2] \/ Len(x[3]) # 3 THEN <<U("any"), TRUE>>
+         IN  IF IsErr(cv) THEN <<cv, TRUE, 0>>
+             ELSE IF IsU(cv) \/ IsText(cv) \/ ~c[2] \/ Len(x[3]) # 3 THEN <<U("any"), TRUE, 0>>
              ELSE LET truth == IF IsBlank(cv) THEN FALSE ELSE cv[2] # 0
                       br == Ev(x[3][IF truth THEN 2 ELSE 3], env)
-                  IN  IF IsBlank(br[1]) THEN <<U("any"), TRUE>> ELSE br
+                  IN  IF IsBlank(br[1]) THEN <<U("any"), TRUE, 0>> ELSE br
 
 \* a formula that evaluates to a blank cell shows 0
 Shown(v) == IF IsBlank(v) THEN Zero ELSE v
@@ -277,8 +288,10 @@ Value(t, env) == TreeValue(Tree(t), env)
 (* the machine: the generator, with the reference semantics attached to    *)
 (* every complete formula                                                  *)
 Meaning(t, s) == IF IsComplete(t, s)
-                 THEN LET pr == Parse(t) IN
-                      <<pr.t, pr.sp, [e \in 1..Len(Envs) |-> TreeValue(pr.t, Envs[e])], pr.n>>
+                 THEN LET pr == Parse(t)
+                          ev == [e \in 1..Len(Envs) |-> Ev(pr.t, Envs[e])]
+                      IN  <<pr.t, pr.sp, [e \in 1..Len(Envs) |-> Shown(ev[e][1])], pr.n,
+                            [e \in 1..Len(Envs) |-> ev[e][3]]>>
                  ELSE <<>>
 
 Init == toks = <<>> /\ stk = <<>> /\ out = <<>>
@@ -310,6 +323,6 @@ ValueTotal ==
 (* export: one JSON line per complete formula *)
 Export ==
   IF Complete /\ Len(toks) >= MinExport
-  THEN PrintT(ToJson([toks |-> toks, sp |-> out[2], vals |-> out[3]]))
+  THEN PrintT(ToJson([toks |-> toks, sp |-> out[2], vals |-> out[3], scale |-> out[5]]))
   ELSE TRUE
 =============================================================================
